@@ -539,6 +539,9 @@ func main() {
 			"in random order; distinct = (family, sizes, final tip)")
 		c.Family("queries", c.N(56, 1500), runQueries)
 		c.Family("headers-first", c.N(140, 8000), runHeadersFirst)
+		// branches stored on top of a block that fails at connect time, a valid way out below it, and manual invalidation
+		// above then below on one branch (shared scenario, see sim.ScenarioFan)
+		c.Family("fan", c.N(28, 1000), func(k *mon.Case) { sim.ScenarioFan(k, node.FamRegtest) })
 		for _, q := range []string{"q.locator", "q.locate_blocks", "q.locate_headers", "q.height_range", "q.height_to_hash_range", "q.interval_hashes"} {
 			c.Require(q, 500)
 		}
